@@ -1,7 +1,8 @@
 (* C14, static part: the lock skeleton language the translator
    (/verif/translator) emits for every function of the packages C14 names,
    its path semantics, an executable abstract interpreter [balanced], and the
-   soundness theorem [balanced_sound].
+   soundness theorems [balanced_sound], [balanced_no_fault],
+   [balanced_panic_covered].
 
    Reading guide.
    - A lock is identified syntactically: the normalised Go expression the
@@ -16,22 +17,47 @@
      [summary] declares.  Every function without a declared summary must have
      net effect zero on every path that returns: "every call releases
      everything it acquired, whatever its outcome".
+   - A function may only release what it holds.  The declared summary carries
+     an *entry assumption* [s_pre] (mutexes the caller must hold when it
+     calls; empty unless declared).  Releasing a mutex ([MW]/[MR] item) whose
+     count relative to entry, plus the entry assumption, is not positive is
+     a *fault* (outcome [OFault]), as is a call whose entry assumption the
+     caller does not meet.  Faults propagate to the top from any depth, so
+     "no run ends in [OFault]" says that on every path, at every moment, at
+     any call depth, the count of every mutex stays at or above what was
+     there on entry minus the entry assumption: an Unlock-then-Lock slip is a
+     fault even though its net effect is zero.  (LockPile items are not
+     subject to the floor: LockPile.Unlock of a lock that is not in the pile
+     panics by itself, and locks added by a callee have no stable syntactic
+     name.)
    - [exec] is the path semantics: all branch choices, loops any number of
      times, [defer]s run LIFO when the function body is left (by return or by
-     panic), calls execute the callee's body in a fresh frame and add the
+     panic; a deferred call that panics does not stop the remaining ones:
+     [Then]), calls execute the callee's body in a fresh frame and add the
      callee's net effect (renamed into the caller's names) to the caller.
-   - Paths that end in a Go panic are exempt: there is no recover() in the
-     analysed packages (the translator fails if one appears), so a panic
-     terminates the process.
+   - Panics.  There is no recover() in the analysed packages (the translator
+     fails if one appears), so a panic ends the process and the locks a
+     panicking path leaves behind do not matter -- except for what the
+     deferred statements do while the stack unwinds.  Panicking paths are
+     therefore *not* exempt from the fault check (a deferred Unlock must find
+     its mutex held, also when the panic comes out of a callee), and every
+     mutex that a pending deferred statement releases must be back at the
+     declared net effect after the unwinding when the panic was raised by
+     the function itself ([OPanic]; [OPanicC] is a panic that comes out of a
+     callee, whose net effect is only known from below: [s_plow]).  Only the
+     locks no pending defer covers are exempt.  A function whose summary says
+     [s_panics = false] is checked never to panic (explicit panic statements
+     only: nil dereferences and the like are not modelled).
    - [ai] computes, for a statement and an abstract state, the set of
      (outcome, state) pairs reachable through [exec]; calls are replaced by the
      callee's declared summary.  [fn_ok] checks a function body against its
      own summary.  If every function of the program passes, every path of
-     every function has exactly the declared net effect ([balanced_sound]). *)
+     every function has exactly the declared net effect ([balanced_sound]),
+     never faults ([balanced_no_fault]) and releases what its defers cover
+     when it panics ([balanced_panic_covered]). *)
 From Coq Require Import String List ZArith Bool Lia.
 Import ListNotations.
 Local Open Scope Z_scope.
-
 (* ------------------------------------------------------------------------ *)
 (* Items and signed multisets                                               *)
 
@@ -258,6 +284,68 @@ Lemma map_items_equiv f a b :
   sm_equiv a b -> sm_equiv (map_items f a) (map_items f b).
 Proof. intros H j; rewrite !cnt_map_items; apply cntP_equiv, H. Qed.
 
+
+(* More multiset facts: negation, sums over preimages, supports. *)
+Definition neg (h : smset) : smset := map (fun e => (fst e, - snd e)) h.
+
+Lemma cnt_neg h i : cnt (neg h) i = - cnt h i.
+Proof.
+  unfold neg. induction h as [|e h IH]; cbn; [reflexivity|].
+  rewrite IH. destruct (item_eqb i (fst e)); lia.
+Qed.
+
+Lemma cntP_app P a b : cntP P (a ++ b) = cntP P a + cntP P b.
+Proof. induction a as [|e a IH]; cbn; [reflexivity | rewrite IH; lia]. Qed.
+
+Lemma sumK_nonneg K g : (forall k, In k K -> 0 <= g k) -> 0 <= sumK K g.
+Proof.
+  induction K as [|k K IH]; cbn; intros H; [lia|].
+  pose proof (H k (or_introl eq_refl)). assert (0 <= sumK K g) by (apply IH; intros; apply H; auto). lia.
+Qed.
+
+Lemma cntP_nonneg P h : (forall i, P i = true -> 0 <= cnt h i) -> 0 <= cntP P h.
+Proof.
+  intros H.
+  set (K := nodup (fun x y => match item_eqb_spec x y with ReflectT _ e => left e | ReflectF _ n => right n end)
+                  (map fst h)).
+  rewrite (cntP_sumK P h K).
+  - apply sumK_nonneg. intros k _. destruct (P k) eqn:Hk; [apply H, Hk | lia].
+  - apply NoDup_nodup.
+  - intros e He. apply nodup_In, in_map, He.
+Qed.
+
+(* Mutexes proper, as opposed to entries of a LockPile. *)
+Definition checked (i : item) : bool := match fst i with MP _ => false | _ => true end.
+
+Lemma in_piles_unchecked ps i : in_piles ps i = true -> checked i = false.
+Proof.
+  unfold in_piles, in_pile, checked. rewrite existsb_exists. intros [p [_ H]].
+  destruct (fst i); [discriminate | discriminate | reflexivity].
+Qed.
+
+Lemma cnt_supp_out ps h i : supp_in ps h -> in_piles ps i = false -> cnt h i = 0.
+Proof.
+  induction h as [|e h IH]; cbn; intros Hs Hi; [reflexivity|].
+  rewrite IH; [| intros e' He'; apply Hs; right; exact He' | exact Hi].
+  destruct (item_eqb_spec i (fst e)) as [->|_]; [|reflexivity].
+  rewrite (Hs e (or_introl eq_refl)) in Hi. discriminate.
+Qed.
+
+Lemma cnt_supp_checked ps h i : supp_in ps h -> checked i = true -> cnt h i = 0.
+Proof.
+  intros Hs Hc. apply (cnt_supp_out ps); [exact Hs|].
+  destruct (in_piles ps i) eqn:Hp; [|reflexivity].
+  apply in_piles_unchecked in Hp. congruence.
+Qed.
+
+Definition nonneg_checked (h : smset) : Prop := forall i, checked i = true -> 0 <= cnt h i.
+
+Lemma nonneg_checked_nil : nonneg_checked [].
+Proof. intros i _; cbn; lia. Qed.
+
+Lemma nonneg_checked_app a b : nonneg_checked a -> nonneg_checked b -> nonneg_checked (a ++ b).
+Proof. intros Ha Hb i Hi. rewrite cnt_app. specialize (Ha i Hi). specialize (Hb i Hi). lia. Qed.
+
 (* ------------------------------------------------------------------------ *)
 (* Syntax                                                                   *)
 
@@ -276,6 +364,9 @@ Definition rename_pile (sg : subst) (p : string) : string := amap (s_piles sg) p
 Definition rename (sg : subst) (i : item) : item :=
   (match fst i with MP p => MP (rename_pile sg p) | m => m end, amap (s_locks sg) (snd i)).
 
+Lemma checked_rename sg i : checked (rename sg i) = checked i.
+Proof. destruct i as [[| |p] l]; reflexivity. Qed.
+
 Inductive stmt :=
 | Skip
 | Acq (i : item)                 (* Lock / RLock / lockPile.Lock(&l) *)
@@ -289,7 +380,9 @@ Inductive stmt :=
 | Seq (a b : stmt)
 | Scope (a : stmt)               (* body of an inlined closure: return ends the closure *)
 | SetFlag (x : string) (v : bool)       (* local bool assigned constants only *)
-| IfFlag (x : string) (a b : stmt).     (* if x {a} else {b} *)
+| IfFlag (x : string) (a b : stmt)      (* if x {a} else {b} *)
+| Then (a b : stmt).             (* a, then b even if a panicked: unwinding of defers.
+                                    Never emitted by the translator. *)
 
 (* The translator's vocabulary. *)
 Definition Lock (l : string) := Acq (MW, l).
@@ -320,20 +413,24 @@ Defined.
 Fixpoint nodefer (s : stmt) : bool :=
   match s with
   | Defer _ => false
-  | If a b | Seq a b | IfFlag _ a b => nodefer a && nodefer b
+  | If a b | Seq a b | IfFlag _ a b | Then a b => nodefer a && nodefer b
   | Loop _ a | Scope a => nodefer a
   | _ => true
   end.
 
-(* Deferred statements, most recent first, as one statement. *)
+(* Deferred statements, most recent first, as one statement.  A deferred
+   call that panics does not keep the older ones from running. *)
 Fixpoint unwind (ds : list stmt) : stmt :=
-  match ds with [] => Skip | d :: t => Seq (Scope d) (unwind t) end.
+  match ds with [] => Skip | d :: t => Then (Scope d) (unwind t) end.
 
 Record summary := mkSum {
   s_delta : smset;          (* net effect on the caller, in the callee's names *)
-  s_dirty : list string }.  (* LockPile parameters it may add locks to *)
+  s_dirty : list string;    (* LockPile parameters it may add locks to *)
+  s_pre : smset;            (* entry assumption: mutexes the caller holds when it calls *)
+  s_plow : smset;           (* when it panics: its net effect on every mutex is at least -s_plow *)
+  s_panics : bool }.        (* may end in a panic (explicit panic statements) *)
 
-Definition neutral : summary := mkSum [] [].
+Definition neutral : summary := mkSum [] [] [] [] false.
 
 Definition program := list (string * (stmt * summary)).
 
@@ -349,70 +446,166 @@ Fixpoint assoc {A} (k : string) (l : list (string * A)) : option A :=
 Record frame := mkF {
   held : smset;                     (* signed, relative to function entry *)
   flags : list (string * bool);
-  defers : list stmt }.
+  defers : list stmt;
+  slack : smset }.                  (* declared panic bounds (s_plow) of the callees that have panicked *)
 
-Definition frame0 : frame := mkF [] [] [].
+Definition frame0 : frame := mkF [] [] [] [].
 
-Inductive outcome := ONormal | OBreak | OContinue | OReturn | OPanic.
+Inductive outcome :=
+| ONormal | OBreak | OContinue | OReturn
+| OPanic       (* raised by a panic statement of this function *)
+| OPanicC      (* came out of a callee *)
+| OFault.      (* released a mutex that is not held / called with the entry assumption unmet *)
+
+Definition is_panic (o : outcome) : bool :=
+  match o with OPanic | OPanicC => true | _ => false end.
 
 Definition descope (o : outcome) : outcome :=
-  match o with OPanic => OPanic | _ => ONormal end.
+  match o with OPanic | OPanicC | OFault => o | _ => ONormal end.
 
 Definition call_outcome (o1 o2 : outcome) : outcome :=
   match o1, o2 with
-  | OPanic, _ => OPanic
-  | _, OPanic => OPanic
-  | _, _ => ONormal
+  | OFault, _ | _, OFault => OFault
+  | _, _ => if is_panic o1 || is_panic o2 then OPanicC else ONormal
+  end.
+
+(* [o1] is a panic; the older deferred statements ended with [o2] *)
+Definition panic_join (o1 o2 : outcome) : outcome :=
+  match o1, o2 with
+  | _, OFault => OFault
+  | OPanicC, _ | _, OPanicC => OPanicC
+  | _, _ => OPanic
   end.
 
 Definition lookup_flag (x : string) (fl : list (string * bool)) : option bool := assoc x fl.
 
+(* May the mutex [i] be released when [h] is held relative to entry and
+   [pre] was assumed on entry?  [sl] is the slack: when a callee has
+   panicked, the mutexes its summary declares it may have released by then
+   ([s_plow], a justified exemption listed in summaries.json) are given the
+   benefit of the doubt while the caller's deferred statements run. *)
+Definition can_rel (pre sl h : smset) (i : item) : bool :=
+  negb (checked i) || (0 <? cnt h i + cnt pre i + cnt sl i).
+
+(* Does a caller holding [h] (entry assumption [pre]) meet a callee's entry
+   assumption [rp] (already in the caller's names)? *)
+Definition pre_met (pre sl h rp : smset) : bool :=
+  forallb (fun e => cnt rp (fst e) <=? cnt h (fst e) + cnt pre (fst e) + cnt sl (fst e)) rp.
+
+Definition call_slack (o : outcome) (rplow sl : smset) : smset :=
+  match o with OPanicC => rplow ++ sl | _ => sl end.
+
 Section Semantics.
 Variable prog : program.
 
-Inductive exec : stmt -> frame -> outcome -> frame -> Prop :=
-| E_Skip fr : exec Skip fr ONormal fr
-| E_Acq i fr : exec (Acq i) fr ONormal (mkF ((i, 1) :: held fr) (flags fr) (defers fr))
-| E_Rel i fr : exec (Rel i) fr ONormal (mkF ((i, -1) :: held fr) (flags fr) (defers fr))
-| E_PileUnlockAll p fr :
-    exec (PileUnlockAll p) fr ONormal (mkF (clear_pile p (held fr)) (flags fr) (defers fr))
-| E_Defer s fr : exec (Defer s) fr ONormal (mkF (held fr) (flags fr) (s :: defers fr))
-| E_SetFlag x v fr : exec (SetFlag x v) fr ONormal (mkF (held fr) ((x, v) :: flags fr) (defers fr))
-| E_IfFlagT x a b fr o fr' :
-    lookup_flag x (flags fr) <> Some false -> exec a fr o fr' -> exec (IfFlag x a b) fr o fr'
-| E_IfFlagF x a b fr o fr' :
-    lookup_flag x (flags fr) <> Some true -> exec b fr o fr' -> exec (IfFlag x a b) fr o fr'
-| E_IfL a b fr o fr' : exec a fr o fr' -> exec (If a b) fr o fr'
-| E_IfR a b fr o fr' : exec b fr o fr' -> exec (If a b) fr o fr'
-| E_SeqN a b fr fr1 o fr2 : exec a fr ONormal fr1 -> exec b fr1 o fr2 -> exec (Seq a b) fr o fr2
-| E_SeqX a b fr o fr1 : exec a fr o fr1 -> o <> ONormal -> exec (Seq a b) fr o fr1
-| E_Return fr : exec Return fr OReturn fr
-| E_Panic fr : exec Panic fr OPanic fr
-| E_Break fr : exec Break fr OBreak fr
-| E_Continue fr : exec Continue fr OContinue fr
-| E_LoopExit a fr : exec (Loop false a) fr ONormal fr
-| E_LoopIter inf a fr o fr1 o' fr2 :
-    exec a fr o fr1 -> o = ONormal \/ o = OContinue ->
-    exec (Loop inf a) fr1 o' fr2 -> exec (Loop inf a) fr o' fr2
-| E_LoopBreak inf a fr fr1 : exec a fr OBreak fr1 -> exec (Loop inf a) fr ONormal fr1
-| E_LoopAbrupt inf a fr o fr1 :
-    exec a fr o fr1 -> o = OReturn \/ o = OPanic -> exec (Loop inf a) fr o fr1
-| E_Scope a fr o fr' : exec a fr o fr' -> exec (Scope a) fr (descope o) fr'
-| E_Call f sg body sm fr o1 fr1 o2 fr2 :
+(* [exec pre s fr o fr']: statement [s] of a function entered under the
+   entry assumption [pre]. *)
+Inductive exec : smset -> stmt -> frame -> outcome -> frame -> Prop :=
+| E_Skip pre fr : exec pre Skip fr ONormal fr
+| E_Acq pre i fr : exec pre (Acq i) fr ONormal (mkF ((i, 1) :: held fr) (flags fr) (defers fr) (slack fr))
+| E_Rel pre i fr :
+    can_rel pre (slack fr) (held fr) i = true ->
+    exec pre (Rel i) fr ONormal (mkF ((i, -1) :: held fr) (flags fr) (defers fr) (slack fr))
+| E_RelFault pre i fr :
+    can_rel pre (slack fr) (held fr) i = false -> exec pre (Rel i) fr OFault fr
+| E_PileUnlockAll pre p fr :
+    exec pre (PileUnlockAll p) fr ONormal (mkF (clear_pile p (held fr)) (flags fr) (defers fr) (slack fr))
+| E_Defer pre s fr : exec pre (Defer s) fr ONormal (mkF (held fr) (flags fr) (s :: defers fr) (slack fr))
+| E_SetFlag pre x v fr : exec pre (SetFlag x v) fr ONormal (mkF (held fr) ((x, v) :: flags fr) (defers fr) (slack fr))
+| E_IfFlagT pre x a b fr o fr' :
+    lookup_flag x (flags fr) <> Some false -> exec pre a fr o fr' -> exec pre (IfFlag x a b) fr o fr'
+| E_IfFlagF pre x a b fr o fr' :
+    lookup_flag x (flags fr) <> Some true -> exec pre b fr o fr' -> exec pre (IfFlag x a b) fr o fr'
+| E_IfL pre a b fr o fr' : exec pre a fr o fr' -> exec pre (If a b) fr o fr'
+| E_IfR pre a b fr o fr' : exec pre b fr o fr' -> exec pre (If a b) fr o fr'
+| E_SeqN pre a b fr fr1 o fr2 :
+    exec pre a fr ONormal fr1 -> exec pre b fr1 o fr2 -> exec pre (Seq a b) fr o fr2
+| E_SeqX pre a b fr o fr1 : exec pre a fr o fr1 -> o <> ONormal -> exec pre (Seq a b) fr o fr1
+| E_ThenN pre a b fr fr1 o fr2 :
+    exec pre a fr ONormal fr1 -> exec pre b fr1 o fr2 -> exec pre (Then a b) fr o fr2
+| E_ThenP pre a b fr o1 fr1 o2 fr2 :
+    exec pre a fr o1 fr1 -> is_panic o1 = true -> exec pre b fr1 o2 fr2 ->
+    exec pre (Then a b) fr (panic_join o1 o2) fr2
+| E_ThenX pre a b fr o fr1 :
+    exec pre a fr o fr1 -> o <> ONormal -> is_panic o = false -> exec pre (Then a b) fr o fr1
+| E_Return pre fr : exec pre Return fr OReturn fr
+| E_Panic pre fr : exec pre Panic fr OPanic fr
+| E_Break pre fr : exec pre Break fr OBreak fr
+| E_Continue pre fr : exec pre Continue fr OContinue fr
+| E_LoopExit pre a fr : exec pre (Loop false a) fr ONormal fr
+| E_LoopIter pre inf a fr o fr1 o' fr2 :
+    exec pre a fr o fr1 -> o = ONormal \/ o = OContinue ->
+    exec pre (Loop inf a) fr1 o' fr2 -> exec pre (Loop inf a) fr o' fr2
+| E_LoopBreak pre inf a fr fr1 : exec pre a fr OBreak fr1 -> exec pre (Loop inf a) fr ONormal fr1
+| E_LoopAbrupt pre inf a fr o fr1 :
+    exec pre a fr o fr1 -> o = OReturn \/ o = OPanic \/ o = OPanicC \/ o = OFault ->
+    exec pre (Loop inf a) fr o fr1
+| E_Scope pre a fr o fr' : exec pre a fr o fr' -> exec pre (Scope a) fr (descope o) fr'
+| E_Call pre f sg body sm fr o1 fr1 o2 fr2 :
     assoc f prog = Some (body, sm) ->
-    exec body frame0 o1 fr1 -> o1 <> OBreak -> o1 <> OContinue ->
-    exec (unwind (defers fr1)) (mkF (held fr1) (flags fr1) []) o2 fr2 ->
-    exec (Call f sg) fr (call_outcome o1 o2)
-         (mkF (map_items (rename sg) (held fr2) ++ held fr) (flags fr) (defers fr)).
+    pre_met pre (slack fr) (held fr) (map_items (rename sg) (s_pre sm)) = true ->
+    exec (s_pre sm) body frame0 o1 fr1 -> o1 <> OBreak -> o1 <> OContinue -> o1 <> OFault ->
+    exec (s_pre sm) (unwind (defers fr1)) (mkF (held fr1) (flags fr1) [] (slack fr1)) o2 fr2 ->
+    exec pre (Call f sg) fr (call_outcome o1 o2)
+         (mkF (map_items (rename sg) (held fr2) ++ held fr) (flags fr) (defers fr)
+              (call_slack (call_outcome o1 o2) (map_items (rename sg) (s_plow sm)) (slack fr)))
+| E_CallFault pre f sg body sm fr fr1 :
+    assoc f prog = Some (body, sm) ->
+    exec (s_pre sm) body frame0 OFault fr1 ->
+    exec pre (Call f sg) fr OFault fr
+| E_CallPre pre f sg body sm fr :
+    assoc f prog = Some (body, sm) ->
+    pre_met pre (slack fr) (held fr) (map_items (rename sg) (s_pre sm)) = false ->
+    exec pre (Call f sg) fr OFault fr.
 
-(* One complete run of function [f] that returns (does not panic): its body,
-   then its deferred statements; [h] is the net effect on the locks held. *)
-Definition fn_returns (f : string) (h : smset) : Prop :=
-  exists body sm o1 fr1 fr2,
+(* One complete run of function [f]: its body, then its deferred statements. *)
+Definition fn_run (f : string) (sm : summary) (o1 : outcome) (fr1 : frame) (o2 : outcome) (fr2 : frame) : Prop :=
+  exists body,
     assoc f prog = Some (body, sm) /\
-    exec body frame0 o1 fr1 /\ (o1 = ONormal \/ o1 = OReturn) /\
-    exec (unwind (defers fr1)) (mkF (held fr1) (flags fr1) []) ONormal fr2 /\
-    h = held fr2.
+    exec (s_pre sm) body frame0 o1 fr1 /\ o1 <> OBreak /\ o1 <> OContinue /\ o1 <> OFault /\
+    exec (s_pre sm) (unwind (defers fr1)) (mkF (held fr1) (flags fr1) [] (slack fr1)) o2 fr2.
+
+(* ... that returns (does not panic); [h] is the net effect on the locks held. *)
+Definition fn_returns (f : string) (h : smset) : Prop :=
+  exists sm o1 fr1 fr2,
+    fn_run f sm o1 fr1 ONormal fr2 /\ (o1 = ONormal \/ o1 = OReturn) /\ h = held fr2.
+
+(* ... that releases a mutex it does not hold, or calls a function whose
+   entry assumption it does not meet -- itself or anything it calls, at any
+   depth, in its body or in its deferred statements, on a returning or on a
+   panicking path. *)
+Definition fn_faults (f : string) : Prop :=
+  exists body sm,
+    assoc f prog = Some (body, sm) /\
+    ((exists fr1, exec (s_pre sm) body frame0 OFault fr1) \/
+     (exists o1 fr1 fr2, fn_run f sm o1 fr1 OFault fr2)).
+
+(* ... that ends in a panic raised by the function itself (in its body or in
+   one of its deferred statements), every callee having returned: [ds] are
+   the deferred statements pending when the body was left, [h] the net
+   effect after they have run. *)
+Definition fn_panics_own (f : string) (sm : summary) (ds : list stmt) (h : smset) : Prop :=
+  exists o1 fr1 o2 fr2,
+    fn_run f sm o1 fr1 o2 fr2 /\
+    ((o1 = OPanic /\ (o2 = ONormal \/ o2 = OPanic)) \/ ((o1 = ONormal \/ o1 = OReturn) /\ o2 = OPanic)) /\
+    ds = defers fr1 /\ h = held fr2.
+
+(* A lock is covered by a deferred statement that releases (or touches) it. *)
+Fixpoint touches (s : stmt) (i : item) : bool :=
+  match s with
+  | Acq j | Rel j => item_eqb i j
+  | PileUnlockAll p => in_pile p i
+  | Call f sg =>
+    match assoc f prog with
+    | Some (_, sm) => existsb (fun e => item_eqb i (rename sg (fst e))) (s_delta sm)
+    | None => false
+    end
+  | Defer a | Loop _ a | Scope a => touches a i
+  | If a b | Seq a b | IfFlag _ a b | Then a b => touches a i || touches b i
+  | _ => false
+  end.
+
+Definition covered (ds : list stmt) (i : item) : bool := existsb (fun d => touches d i) ds.
 
 (* ------------------------------------------------------------------------ *)
 (* Abstract interpreter                                                     *)
@@ -421,15 +614,17 @@ Record astate := mkA {
   a_held : smset;
   a_flags : list (string * bool);
   a_defers : list stmt;
-  a_dirty : list string }.   (* piles that may hold additional, unknown locks *)
+  a_dirty : list string;     (* piles that may hold additional, unknown locks *)
+  a_up : bool;               (* a callee panicked: every mutex may be held more often than [a_held] says *)
+  a_slack : smset }.
 
-Definition a0 : astate := mkA [] [] [] [].
+Definition a0 : astate := mkA [] [] [] [] false [].
 Definition outs := list (outcome * astate).
 
 Definition outcome_eqb (a b : outcome) : bool :=
   match a, b with
   | ONormal, ONormal | OBreak, OBreak | OContinue, OContinue
-  | OReturn, OReturn | OPanic, OPanic => true
+  | OReturn, OReturn | OPanic, OPanic | OPanicC, OPanicC | OFault, OFault => true
   | _, _ => false
   end.
 
@@ -455,7 +650,8 @@ Definition defers_eqb (a b : list stmt) : bool :=
 Definition aeqb (a b : astate) : bool :=
   sm_eqb (a_held a) (a_held b) && flags_eqb (a_flags a) (a_flags b)
   && defers_eqb (a_defers a) (a_defers b)
-  && subset (a_dirty a) (a_dirty b) && subset (a_dirty b) (a_dirty a).
+  && subset (a_dirty a) (a_dirty b) && subset (a_dirty b) (a_dirty a)
+  && Bool.eqb (a_up a) (a_up b) && sm_eqb (a_slack a) (a_slack b).
 
 Definition oeqb (x y : outcome * astate) : bool :=
   outcome_eqb (fst x) (fst y) && aeqb (snd x) (snd y).
@@ -476,10 +672,27 @@ Fixpoint bind_outs (l : outs) (k : astate -> option outs) : option outs :=
     end
   end.
 
+Definition then_one (o : outcome) (a : astate) (k : astate -> option outs) : option outs :=
+  match o with
+  | ONormal => k a
+  | OPanic | OPanicC => option_map (map (fun oa => (panic_join o (fst oa), snd oa))) (k a)
+  | _ => Some [(o, a)]
+  end.
+
+Fixpoint bind_then (l : outs) (k : astate -> option outs) : option outs :=
+  match l with
+  | [] => Some []
+  | (o, a) :: t =>
+    match then_one o a k, bind_then t k with
+    | Some x, Some y => Some (x ++ y)
+    | _, _ => None
+    end
+  end.
+
 Definition loop_exit (oa : outcome * astate) : outs :=
   match fst oa with
   | OBreak => [(ONormal, snd oa)]
-  | OReturn | OPanic => [oa]
+  | OReturn | OPanic | OPanicC | OFault => [oa]
   | _ => []
   end.
 
@@ -489,84 +702,122 @@ Definition back_edge_ok (a : astate) (oa : outcome * astate) : bool :=
   | _ => true
   end.
 
-Fixpoint ai (s : stmt) (a : astate) {struct s} : option outs :=
+Fixpoint ai (pre : smset) (s : stmt) (a : astate) {struct s} : option outs :=
   match s with
   | Skip => Some [(ONormal, a)]
-  | Acq i => Some [(ONormal, mkA ((i, 1) :: a_held a) (a_flags a) (a_defers a) (a_dirty a))]
-  | Rel i => Some [(ONormal, mkA ((i, -1) :: a_held a) (a_flags a) (a_defers a) (a_dirty a))]
+  | Acq i => Some [(ONormal, mkA ((i, 1) :: a_held a) (a_flags a) (a_defers a) (a_dirty a) (a_up a) (a_slack a))]
+  | Rel i =>
+    if can_rel pre (a_slack a) (a_held a) i
+    then Some [(ONormal, mkA ((i, -1) :: a_held a) (a_flags a) (a_defers a) (a_dirty a) (a_up a) (a_slack a))]
+    else None
   | PileUnlockAll p =>
     Some [(ONormal, mkA (clear_pile p (a_held a)) (a_flags a) (a_defers a)
-                        (filter (fun q => negb (String.eqb p q)) (a_dirty a)))]
+                        (filter (fun q => negb (String.eqb p q)) (a_dirty a)) (a_up a) (a_slack a))]
   | Defer d =>
-    if nodefer d then Some [(ONormal, mkA (a_held a) (a_flags a) (d :: a_defers a) (a_dirty a))]
+    if nodefer d then Some [(ONormal, mkA (a_held a) (a_flags a) (d :: a_defers a) (a_dirty a) (a_up a) (a_slack a))]
     else None
-  | SetFlag x v => Some [(ONormal, mkA (a_held a) ((x, v) :: a_flags a) (a_defers a) (a_dirty a))]
+  | SetFlag x v => Some [(ONormal, mkA (a_held a) ((x, v) :: a_flags a) (a_defers a) (a_dirty a) (a_up a) (a_slack a))]
   | IfFlag x p q =>
     match lookup_flag x (a_flags a) with
-    | Some true => ai p a
-    | Some false => ai q a
-    | None => match ai p a, ai q a with
+    | Some true => ai pre p a
+    | Some false => ai pre q a
+    | None => match ai pre p a, ai pre q a with
               | Some o1, Some o2 => Some (dedup (o1 ++ o2))
               | _, _ => None
               end
     end
   | If p q =>
-    match ai p a, ai q a with
+    match ai pre p a, ai pre q a with
     | Some o1, Some o2 => Some (dedup (o1 ++ o2))
     | _, _ => None
     end
   | Seq p q =>
-    match ai p a with
+    match ai pre p a with
     | None => None
-    | Some o1 => option_map dedup (bind_outs o1 (ai q))
+    | Some o1 => option_map dedup (bind_outs o1 (ai pre q))
+    end
+  | Then p q =>
+    match ai pre p a with
+    | None => None
+    | Some o1 => option_map dedup (bind_then o1 (ai pre q))
     end
   | Return => Some [(OReturn, a)]
   | Panic => Some [(OPanic, a)]
   | Break => Some [(OBreak, a)]
   | Continue => Some [(OContinue, a)]
   | Loop inf p =>
-    match ai p a with
+    match ai pre p a with
     | None => None
     | Some o1 =>
       if forallb (back_edge_ok a) o1
       then Some (dedup ((if inf then [] else [(ONormal, a)]) ++ flat_map loop_exit o1))
       else None
     end
-  | Scope p => option_map (map (fun oa => (descope (fst oa), snd oa))) (ai p a)
+  | Scope p => option_map (map (fun oa => (descope (fst oa), snd oa))) (ai pre p a)
   | Call f sg =>
     match assoc f prog with
     | None => None
     | Some (_, sm) =>
-      Some [(ONormal, mkA (map_items (rename sg) (s_delta sm) ++ a_held a) (a_flags a) (a_defers a)
-                          (map (rename_pile sg) (s_dirty sm) ++ a_dirty a))]
+      if pre_met pre (a_slack a) (a_held a) (map_items (rename sg) (s_pre sm))
+      then
+        let dirty := map (rename_pile sg) (s_dirty sm) ++ a_dirty a in
+        Some ((ONormal, mkA (map_items (rename sg) (s_delta sm) ++ a_held a) (a_flags a) (a_defers a)
+                            dirty (a_up a) (a_slack a))
+              :: (if s_panics sm
+                  then [(OPanicC, mkA (neg (map_items (rename sg) (s_plow sm)) ++ a_held a)
+                                      (a_flags a) (a_defers a) dirty true
+                                      (map_items (rename sg) (s_plow sm) ++ a_slack a))]
+                  else []))
+      else None
     end
   end.
 
 (* Final states of a function, compared with its summary. *)
 Definition final_ok (sm : summary) (a : astate) : bool :=
+  negb (a_up a) &&
   sm_eqb (strip_piles (s_dirty sm) (a_held a)) (s_delta sm) && subset (a_dirty a) (s_dirty sm).
 
-Definition after_defers_ok (sm : summary) (oa : outcome * astate) : bool :=
+(* A panicking exit: every mutex is at or above -s_plow ... *)
+Definition plow_ok (sm : summary) (a : astate) : bool :=
+  forallb (fun e => negb (checked (fst e)) || (- cnt (s_plow sm) (fst e) <=? cnt (a_held a) (fst e)))
+          (a_held a ++ s_plow sm).
+
+(* ... and, when the panic is the function's own, what the pending defers
+   cover is back at the declared net effect. *)
+Definition covered_ok (sm : summary) (ds : list stmt) (a : astate) : bool :=
+  subset (a_dirty a) (s_dirty sm) &&
+  forallb (fun e => negb (covered ds (fst e)) || in_piles (s_dirty sm) (fst e)
+                    || (cnt (a_held a) (fst e) =? cnt (s_delta sm) (fst e)))
+          (a_held a ++ s_delta sm).
+
+Definition panic_exit_ok (sm : summary) (ds : list stmt) (a : astate) : bool :=
+  s_panics sm && plow_ok sm a && (a_up a || covered_ok sm ds a).
+
+Definition after_defers_ok (sm : summary) (ds : list stmt) (o1 : outcome) (oa : outcome * astate) : bool :=
   match fst oa with
-  | OPanic => true
-  | ONormal => final_ok sm (snd oa)
+  | ONormal => if is_panic o1 then panic_exit_ok sm ds (snd oa) else final_ok sm (snd oa)
+  | OPanic | OPanicC => panic_exit_ok sm ds (snd oa)
   | _ => false
   end.
 
 Definition exit_ok (sm : summary) (oa : outcome * astate) : bool :=
   match fst oa with
-  | OPanic => true
-  | OBreak | OContinue => false
+  | OBreak | OContinue | OFault => false
   | _ =>
     let a1 := snd oa in
-    match ai (unwind (a_defers a1)) (mkA (a_held a1) (a_flags a1) [] (a_dirty a1)) with
+    match ai (s_pre sm) (unwind (a_defers a1)) (mkA (a_held a1) (a_flags a1) [] (a_dirty a1) (a_up a1) (a_slack a1)) with
     | None => false
-    | Some o2 => forallb (after_defers_ok sm) o2
+    | Some o2 => forallb (after_defers_ok sm (a_defers a1) (fst oa)) o2
     end
   end.
 
+(* entry assumptions and panic bounds mention mutexes only, non-negatively *)
+Definition sm_wf (sm : summary) : bool :=
+  forallb (fun e => checked (fst e) && (0 <=? snd e)) (s_pre sm ++ s_plow sm).
+
 Definition fn_ok (body : stmt) (sm : summary) : bool :=
-  match ai body a0 with
+  sm_wf sm &&
+  match ai (s_pre sm) body a0 with
   | None => false
   | Some o1 => forallb (exit_ok sm) o1
   end.
@@ -581,9 +832,15 @@ Definition balanced (f : string) : bool :=
 (* Soundness                                                                *)
 
 Definition abs_rel (a : astate) (fr : frame) : Prop :=
-  (exists extra, supp_in (a_dirty a) extra /\ sm_equiv (held fr) (a_held a ++ extra)) /\
+  (exists extra extra2,
+      supp_in (a_dirty a) extra /\ (a_up a = false -> extra2 = []) /\ nonneg_checked extra2 /\
+      sm_equiv (held fr) (a_held a ++ extra ++ extra2)) /\
   (forall x, lookup_flag x (flags fr) = lookup_flag x (a_flags a)) /\
-  defers fr = a_defers a.
+  defers fr = a_defers a /\ sm_equiv (slack fr) (a_slack a).
+
+(* an abstract state only says "may be held more often" after a callee's panic *)
+Definition up_ok (a : astate) (o : outcome) (a' : astate) : Prop :=
+  a_up a' = true -> a_up a = true \/ o = OPanicC.
 
 Lemma subset_sound a b : subset a b = true -> forall x, In x a -> In x b.
 Proof.
@@ -614,18 +871,27 @@ Proof.
       intro; apply Hn, in_or_app; auto.
 Qed.
 
+Lemma aeqb_up a b : aeqb a b = true -> a_up a = a_up b.
+Proof.
+  unfold aeqb; rewrite !andb_true_iff. intros [[_ H] _]. apply eqb_prop, H.
+Qed.
+
 Lemma abs_rel_aeqb a b fr : aeqb a b = true -> abs_rel a fr -> abs_rel b fr.
 Proof.
+  intros Hq. pose proof (aeqb_up _ _ Hq) as Hup. revert Hq.
   unfold aeqb; rewrite !andb_true_iff.
-  intros [[[[Hh Hf] Hd] Hs1] Hs2] [[extra [Hsup Heq]] [Hfl Hdf]].
-  apply sm_eqb_sound in Hh. pose proof (flags_eqb_sound _ _ Hf) as Hf'.
+  intros [[[[[[Hh Hf] Hd] Hs1] Hs2] _] Hsl] [[extra [extra2 [Hsup [Hu [Hnn Heq]]]]] [Hfl [Hdf Hslk]]].
+  apply sm_eqb_sound in Hh. apply sm_eqb_sound in Hsl. pose proof (flags_eqb_sound _ _ Hf) as Hf'.
   unfold defers_eqb in Hd. destruct (list_eq_dec stmt_eq_dec _ _) as [Hd'|]; [|discriminate].
-  repeat split.
-  - exists extra; split.
+  split; [|split; [|split]].
+  - exists extra, extra2. split; [|split; [|split]].
     + eapply supp_in_mono; [apply subset_sound, Hs1 | exact Hsup].
+    + rewrite <- Hup; exact Hu.
+    + exact Hnn.
     + eapply sm_equiv_trans; [exact Heq | apply sm_equiv_app; [exact Hh | apply sm_equiv_refl]].
   - intro x; rewrite Hfl; apply Hf'.
   - congruence.
+  - eapply sm_equiv_trans; eauto.
 Qed.
 
 Lemma dedup_in o a l :
@@ -642,8 +908,15 @@ Proof.
     destruct (existsb (oeqb x) (dedup t)); exists a'; split; auto. right; assumption.
 Qed.
 
-Lemma abs_rel_weak a a' fr : (a' = a \/ aeqb a a' = true) -> abs_rel a fr -> abs_rel a' fr.
-Proof. intros [-> | H]; [auto | apply abs_rel_aeqb, H]. Qed.
+Lemma via_dedup l o a' fr' a :
+  In (o, a') l -> abs_rel a' fr' -> up_ok a o a' ->
+  exists a'', In (o, a'') (dedup l) /\ abs_rel a'' fr' /\ up_ok a o a''.
+Proof.
+  intros Hin Hr Hu. destruct (dedup_in _ _ _ Hin) as [a'' [Hin' [-> | Hq]]].
+  - exists a'; auto.
+  - exists a''; split; [assumption|]. split; [eapply abs_rel_aeqb; eauto|].
+    unfold up_ok in *. rewrite <- (aeqb_up _ _ Hq). exact Hu.
+Qed.
 
 Lemma bind_outs_normal l k o1s a1 o a' r :
   bind_outs l k = Some r -> In (ONormal, a1) l -> k a1 = Some o1s -> In (o, a') o1s ->
@@ -682,12 +955,27 @@ Proof.
   - eapply IH; eauto.
 Qed.
 
+Lemma bind_then_in l k r o a :
+  bind_then l k = Some r -> In (o, a) l ->
+  exists x, then_one o a k = Some x /\ forall y, In y x -> In y r.
+Proof.
+  revert r; induction l as [|[o0 a00] t IH]; cbn; intros r Hb Hin; [contradiction|].
+  destruct (then_one o0 a00 k) as [x|] eqn:Hx; [|discriminate].
+  destruct (bind_then t k) as [y|] eqn:Hy; [|discriminate].
+  inversion Hb; subst r.
+  destruct Hin as [Heq | Hin].
+  - inversion Heq; subst o0 a00. exists x; split; [assumption|]. intros; apply in_or_app; auto.
+  - destruct (IH _ eq_refl Hin) as [x' [Hx' Hsub]]. exists x'; split; [assumption|].
+    intros; apply in_or_app; auto.
+Qed.
+
 Definition all_ok : Prop :=
   forall f body sm, assoc f prog = Some (body, sm) -> fn_ok body sm = true.
 
 Lemma abs_rel_0 : abs_rel a0 frame0.
 Proof.
-  repeat split. exists []; split; [intros e [] | apply sm_equiv_refl].
+  split; [|split; [intro; reflexivity | split; [reflexivity | apply sm_equiv_refl]]].
+  exists [], []. split; [intros e []|]. split; [reflexivity|]. split; [apply nonneg_checked_nil | apply sm_equiv_refl].
 Qed.
 
 (* What a checked function contributes to its caller. *)
@@ -695,14 +983,15 @@ Definition meets (sm : summary) (h : smset) : Prop :=
   exists extra, supp_in (s_dirty sm) extra /\ sm_equiv h (s_delta sm ++ extra).
 
 Lemma final_ok_meets sm a fr :
-  final_ok sm a = true -> abs_rel a fr -> meets sm (held fr).
+  final_ok sm a = true -> abs_rel a fr -> meets sm (held fr) /\ a_up a = false.
 Proof.
-  unfold final_ok; rewrite andb_true_iff; intros [Hq Hs] [[extra [Hsup Heq]] _].
+  unfold final_ok; rewrite !andb_true_iff; intros [[Hup Hq] Hs] [[extra [extra2 [Hsup [Hu [_ Heq]]]]] _].
+  apply negb_true_iff in Hup. split; [|exact Hup]. rewrite (Hu Hup) in Heq.
   apply sm_eqb_sound in Hq.
   exists (only_piles (s_dirty sm) (a_held a) ++ extra); split.
   - apply supp_in_app; [apply supp_in_only|].
     eapply supp_in_mono; [apply subset_sound, Hs | exact Hsup].
-  - intro i. rewrite Heq, !cnt_app, (strip_only_split (s_dirty sm) (a_held a) i), cnt_app, Hq. lia.
+  - intro i. rewrite Heq, !cnt_app, (strip_only_split (s_dirty sm) (a_held a) i), cnt_app, Hq. cbn. lia.
 Qed.
 
 Lemma in_piles_rename sg ps i :
@@ -721,178 +1010,364 @@ Proof.
   apply in_piles_rename, H, He0.
 Qed.
 
+(* the abstract count of a mutex is a lower bound of the concrete one *)
+Lemma abs_lower a fr i :
+  abs_rel a fr -> checked i = true -> cnt (a_held a) i <= cnt (held fr) i.
+Proof.
+  intros [[extra [extra2 [Hsup [_ [Hnn Heq]]]]] _] Hc.
+  rewrite (Heq i), !cnt_app, (cnt_supp_checked _ _ _ Hsup Hc).
+  specialize (Hnn i Hc). lia.
+Qed.
+
+Lemma abs_slack a fr i : abs_rel a fr -> cnt (slack fr) i = cnt (a_slack a) i.
+Proof. intros [_ [_ [_ H]]]. apply H. Qed.
+
+Lemma can_rel_mono pre a fr i :
+  abs_rel a fr -> can_rel pre (a_slack a) (a_held a) i = true -> can_rel pre (slack fr) (held fr) i = true.
+Proof.
+  intros Hr. unfold can_rel. destruct (checked i) eqn:Hc; cbn; [|reflexivity].
+  pose proof (abs_lower a fr i Hr Hc). rewrite (abs_slack a fr i Hr), !Z.ltb_lt. lia.
+Qed.
+
+Lemma pre_met_mono pre a fr rp :
+  abs_rel a fr -> (forall e, In e rp -> checked (fst e) = true) ->
+  pre_met pre (a_slack a) (a_held a) rp = true -> pre_met pre (slack fr) (held fr) rp = true.
+Proof.
+  intros Hr Hc. unfold pre_met. rewrite !forallb_forall. intros H e He.
+  specialize (H e He). pose proof (abs_lower a fr (fst e) Hr (Hc e He)).
+  rewrite (abs_slack a fr _ Hr). rewrite Z.leb_le in *. lia.
+Qed.
+
+Lemma sm_wf_pre sm sg e :
+  sm_wf sm = true -> In e (map_items (rename sg) (s_pre sm)) -> checked (fst e) = true.
+Proof.
+  unfold sm_wf. rewrite forallb_forall. intros H He.
+  apply in_map_iff in He as [e0 [<- He0]]. cbn. rewrite checked_rename.
+  specialize (H e0 (in_or_app _ _ _ (or_introl He0))). apply andb_true_iff in H. tauto.
+Qed.
+
+Lemma plow_sound sm a fr :
+  plow_ok sm a = true -> abs_rel a fr ->
+  forall i, checked i = true -> 0 <= cnt (held fr) i + cnt (s_plow sm) i.
+Proof.
+  unfold plow_ok. rewrite forallb_forall. intros H Hr i Hc.
+  pose proof (abs_lower a fr i Hr Hc) as Hl.
+  destruct (in_items_dec i (map fst (a_held a ++ s_plow sm))) as [Hin | Hn].
+  - apply in_map_iff in Hin as [e [<- He]]. specialize (H e He).
+    rewrite Hc in H. cbn in H. rewrite Z.leb_le in H. lia.
+  - rewrite map_app in Hn.
+    assert (cnt (a_held a) i = 0) by (apply cnt_notin; intro; apply Hn, in_or_app; auto).
+    assert (cnt (s_plow sm) i = 0) by (apply cnt_notin; intro; apply Hn, in_or_app; auto).
+    lia.
+Qed.
+
+Lemma covered_sound sm ds a fr :
+  covered_ok sm ds a = true -> abs_rel a fr -> a_up a = false ->
+  forall i, covered ds i = true -> in_piles (s_dirty sm) i = false ->
+  cnt (held fr) i = cnt (s_delta sm) i.
+Proof.
+  unfold covered_ok. rewrite andb_true_iff, forallb_forall.
+  intros [Hs H] [[extra [extra2 [Hsup [Hu [_ Heq]]]]] _] Hup i Hcov Hnp.
+  rewrite (Hu Hup) in Heq. rewrite (Heq i), !cnt_app. cbn.
+  rewrite (cnt_supp_out (s_dirty sm) extra i); [| eapply supp_in_mono; [apply subset_sound, Hs | exact Hsup] | exact Hnp].
+  destruct (in_items_dec i (map fst (a_held a ++ s_delta sm))) as [Hin | Hn].
+  - apply in_map_iff in Hin as [e [<- He]]. specialize (H e He).
+    rewrite Hcov, Hnp in H. cbn in H. rewrite Z.eqb_eq in H. lia.
+  - rewrite map_app in Hn.
+    assert (cnt (a_held a) i = 0) by (apply cnt_notin; intro; apply Hn, in_or_app; auto).
+    assert (cnt (s_delta sm) i = 0) by (apply cnt_notin; intro; apply Hn, in_or_app; auto).
+    lia.
+Qed.
+
+Lemma call_case sm ds o1 o2 a2 :
+  after_defers_ok sm ds o1 (o2, a2) = true -> o1 <> OBreak -> o1 <> OContinue -> o1 <> OFault ->
+  (call_outcome o1 o2 = ONormal /\ is_panic o1 = false /\ o2 = ONormal /\ final_ok sm a2 = true) \/
+  (call_outcome o1 o2 = OPanicC /\ (is_panic o1 = true \/ is_panic o2 = true) /\ panic_exit_ok sm ds a2 = true).
+Proof.
+  unfold after_defers_ok; cbn [fst snd].
+  destruct o1, o2; cbn; intros H H1 H2 H3; try congruence; auto.
+Qed.
+
+Lemma up_ok_trans a o1 a1 o2 a2 o :
+  up_ok a o1 a1 -> up_ok a1 o2 a2 -> (o1 = OPanicC -> o = OPanicC) -> (o2 = OPanicC -> o = OPanicC) ->
+  up_ok a o a2.
+Proof.
+  unfold up_ok. intros H1 H2 Ho1 Ho2 Hu. destruct (H2 Hu) as [Hu1 | ->]; [|auto].
+  destruct (H1 Hu1) as [? | ->]; auto.
+Qed.
+
 Section Sound.
 Hypothesis Hall : all_ok.
 
-Lemma exec_sound s fr o fr' :
-  exec s fr o fr' -> o <> OPanic ->
-  forall a r, abs_rel a fr -> ai s a = Some r ->
-  exists a', In (o, a') r /\ abs_rel a' fr'.
+Lemma exec_sound pre s fr o fr' :
+  exec pre s fr o fr' ->
+  forall a r, abs_rel a fr -> ai pre s a = Some r ->
+  o <> OFault /\ exists a', In (o, a') r /\ abs_rel a' fr' /\ up_ok a o a'.
 Proof.
-  induction 1; intros Hnp a0' r Hrel Hai; cbn in Hai.
-  - (* Skip *) inversion Hai; subst; eexists; split; [left; reflexivity | assumption].
+  induction 1; intros a0' r Hrel Hai; cbn in Hai.
+  - (* Skip *) inversion Hai; subst. split; [discriminate|].
+    eexists; split; [left; reflexivity | split; [assumption | intro; auto]].
   - (* Acq *)
-    inversion Hai; subst; eexists; split; [left; reflexivity|].
-    destruct Hrel as [[extra [Hs He]] [Hf Hd]]; repeat split; cbn; auto.
-    exists extra; split; [assumption | apply sm_equiv_cons with (e := (i, 1)) in He; exact He].
+    inversion Hai; subst. split; [discriminate|]. eexists; split; [left; reflexivity|].
+    split; [|intro; auto].
+    destruct Hrel as [[extra [extra2 [Hs [Hu [Hnn He]]]]] [Hf [Hd Hsl]]].
+    split; [|split; [|split]]; cbn; auto.
+    exists extra, extra2. split; [|split; [|split]]; auto. apply sm_equiv_cons with (e := (i, 1)) in He; exact He.
   - (* Rel *)
-    inversion Hai; subst; eexists; split; [left; reflexivity|].
-    destruct Hrel as [[extra [Hs He]] [Hf Hd]]; repeat split; cbn; auto.
-    exists extra; split; [assumption | apply sm_equiv_cons with (e := (i, -1)) in He; exact He].
+    destruct (can_rel pre (a_slack a0') (a_held a0') i) eqn:Hc; [|discriminate].
+    inversion Hai; subst. split; [discriminate|]. eexists; split; [left; reflexivity|].
+    split; [|intro; auto].
+    destruct Hrel as [[extra [extra2 [Hs [Hu [Hnn He]]]]] [Hf [Hd Hsl]]].
+    split; [|split; [|split]]; cbn; auto.
+    exists extra, extra2. split; [|split; [|split]]; auto. apply sm_equiv_cons with (e := (i, -1)) in He; exact He.
+  - (* RelFault *)
+    destruct (can_rel pre (a_slack a0') (a_held a0') i) eqn:Hc; [|discriminate].
+    rewrite (can_rel_mono _ _ _ _ Hrel Hc) in H. discriminate.
   - (* PileUnlockAll *)
-    inversion Hai; subst; eexists; split; [left; reflexivity|].
-    destruct Hrel as [[extra [Hs He]] [Hf Hd]]; repeat split; cbn; auto.
-    exists (clear_pile p extra); split.
+    inversion Hai; subst. split; [discriminate|]. eexists; split; [left; reflexivity|].
+    split; [|intro; auto].
+    destruct Hrel as [[extra [extra2 [Hs [Hu [Hnn He]]]]] [Hf [Hd Hsl]]].
+    split; [|split; [|split]]; cbn; auto.
+    exists (clear_pile p extra), (clear_pile p extra2). split; [|split; [|split]].
     + intros e Hin. apply filter_In in Hin as [Hin Hnp'].
       specialize (Hs e Hin). unfold in_piles in *. rewrite existsb_exists in *.
       destruct Hs as [q [Hq Hiq]]. exists q; split; [|assumption].
       apply filter_In; split; [assumption|].
       destruct (String.eqb_spec p q) as [->|]; [|reflexivity].
       rewrite Hiq in Hnp'; discriminate.
-    + intro j. rewrite cnt_app, !cnt_clear_pile. rewrite (He j), cnt_app.
+    + intro Hup. rewrite (Hu Hup). reflexivity.
+    + intros j Hj. rewrite cnt_clear_pile. destruct (in_pile p j); [lia | apply Hnn, Hj].
+    + intro j. rewrite !cnt_app, !cnt_clear_pile. rewrite (He j), !cnt_app.
       destruct (in_pile p j); lia.
   - (* Defer *)
     destruct (nodefer s); [|discriminate].
-    inversion Hai; subst; eexists; split; [left; reflexivity|].
-    destruct Hrel as [Hh [Hf Hd]]; repeat split; cbn; auto. congruence.
+    inversion Hai; subst. split; [discriminate|]. eexists; split; [left; reflexivity|].
+    split; [|intro; auto].
+    destruct Hrel as [Hh [Hf [Hd Hsl]]]. split; [|split; [|split]]; cbn; auto. congruence.
   - (* SetFlag *)
-    inversion Hai; subst; eexists; split; [left; reflexivity|].
-    destruct Hrel as [Hh [Hf Hd]]; repeat split; cbn; auto.
+    inversion Hai; subst. split; [discriminate|]. eexists; split; [left; reflexivity|].
+    split; [|intro; auto].
+    destruct Hrel as [Hh [Hf [Hd Hsl]]]. split; [|split; [|split]]; cbn; auto.
     intro y; unfold lookup_flag in *; cbn. destruct (String.eqb y x); auto.
   - (* IfFlagT *)
-    destruct Hrel as [Hh [Hf Hd]]. rewrite (Hf x) in H.
+    destruct Hrel as [Hh [Hf [Hd Hsl]]]. rewrite (Hf x) in H.
     destruct (lookup_flag x (a_flags a0')) as [[]|] eqn:Hl; try congruence.
-    + eapply IHexec; eauto. repeat split; auto.
-    + destruct (ai a a0') as [o1|] eqn:Hai1; [|discriminate].
-      destruct (ai b a0') as [o2|] eqn:Hai2; [|discriminate].
+    + eapply IHexec; eauto. split; [|split; [|split]]; auto.
+    + destruct (ai pre a a0') as [o1|] eqn:Hai1; [|discriminate].
+      destruct (ai pre b a0') as [o2|] eqn:Hai2; [|discriminate].
       inversion Hai; subst.
-      destruct (IHexec Hnp a0' o1) as [a' [Hin Hr]]; [repeat split; auto | exact Hai1|].
-      destruct (dedup_in o a' (o1 ++ o2)) as [a'' [Hin' Hw]]; [apply in_or_app; auto|].
-      exists a''; split; [assumption | eapply abs_rel_weak; eauto].
+      destruct (IHexec a0' o1) as [Hnf [a' [Hin [Hr Hu]]]]; [split; [|split; [|split]]; auto | exact Hai1|].
+      split; [exact Hnf|]. apply (via_dedup (o1 ++ o2) o a'); auto. apply in_or_app; auto.
   - (* IfFlagF *)
-    destruct Hrel as [Hh [Hf Hd]]. rewrite (Hf x) in H.
+    destruct Hrel as [Hh [Hf [Hd Hsl]]]. rewrite (Hf x) in H.
     destruct (lookup_flag x (a_flags a0')) as [[]|] eqn:Hl; try congruence.
-    + eapply IHexec; eauto. repeat split; auto.
-    + destruct (ai a a0') as [o1|] eqn:Hai1; [|discriminate].
-      destruct (ai b a0') as [o2|] eqn:Hai2; [|discriminate].
+    + eapply IHexec; eauto. split; [|split; [|split]]; auto.
+    + destruct (ai pre a a0') as [o1|] eqn:Hai1; [|discriminate].
+      destruct (ai pre b a0') as [o2|] eqn:Hai2; [|discriminate].
       inversion Hai; subst.
-      destruct (IHexec Hnp a0' o2) as [a' [Hin Hr]]; [repeat split; auto | exact Hai2|].
-      destruct (dedup_in o a' (o1 ++ o2)) as [a'' [Hin' Hw]]; [apply in_or_app; auto|].
-      exists a''; split; [assumption | eapply abs_rel_weak; eauto].
+      destruct (IHexec a0' o2) as [Hnf [a' [Hin [Hr Hu]]]]; [split; [|split; [|split]]; auto | exact Hai2|].
+      split; [exact Hnf|]. apply (via_dedup (o1 ++ o2) o a'); auto. apply in_or_app; auto.
   - (* IfL *)
-    destruct (ai a a0') as [o1|] eqn:Hai1; [|discriminate].
-    destruct (ai b a0') as [o2|] eqn:Hai2; [|discriminate].
+    destruct (ai pre a a0') as [o1|] eqn:Hai1; [|discriminate].
+    destruct (ai pre b a0') as [o2|] eqn:Hai2; [|discriminate].
     inversion Hai; subst.
-    destruct (IHexec Hnp a0' o1 Hrel Hai1) as [a' [Hin Hr]].
-    destruct (dedup_in o a' (o1 ++ o2)) as [a'' [Hin' Hw]]; [apply in_or_app; auto|].
-    exists a''; split; [assumption | eapply abs_rel_weak; eauto].
+    destruct (IHexec a0' o1 Hrel Hai1) as [Hnf [a' [Hin [Hr Hu]]]].
+    split; [exact Hnf|]. apply (via_dedup (o1 ++ o2) o a'); auto. apply in_or_app; auto.
   - (* IfR *)
-    destruct (ai a a0') as [o1|] eqn:Hai1; [|discriminate].
-    destruct (ai b a0') as [o2|] eqn:Hai2; [|discriminate].
+    destruct (ai pre a a0') as [o1|] eqn:Hai1; [|discriminate].
+    destruct (ai pre b a0') as [o2|] eqn:Hai2; [|discriminate].
     inversion Hai; subst.
-    destruct (IHexec Hnp a0' o2 Hrel Hai2) as [a' [Hin Hr]].
-    destruct (dedup_in o a' (o1 ++ o2)) as [a'' [Hin' Hw]]; [apply in_or_app; auto|].
-    exists a''; split; [assumption | eapply abs_rel_weak; eauto].
+    destruct (IHexec a0' o2 Hrel Hai2) as [Hnf [a' [Hin [Hr Hu]]]].
+    split; [exact Hnf|]. apply (via_dedup (o1 ++ o2) o a'); auto. apply in_or_app; auto.
   - (* SeqN *)
-    destruct (ai a a0') as [o1|] eqn:Hai1; [|discriminate].
-    destruct (bind_outs o1 (ai b)) as [r0|] eqn:Hb; [|discriminate].
+    destruct (ai pre a a0') as [o1|] eqn:Hai1; [|discriminate].
+    destruct (bind_outs o1 (ai pre b)) as [r0|] eqn:Hb; [|discriminate].
     inversion Hai; subst.
-    destruct (IHexec1 ltac:(discriminate) a0' o1 Hrel Hai1) as [a1 [Hin1 Hr1]].
+    destruct (IHexec1 a0' o1 Hrel Hai1) as [_ [a1 [Hin1 [Hr1 Hu1]]]].
     destruct (bind_outs_some _ _ _ _ Hb Hin1) as [o1s Hk].
-    destruct (IHexec2 Hnp a1 o1s Hr1 Hk) as [a2 [Hin2 Hr2]].
+    destruct (IHexec2 a1 o1s Hr1 Hk) as [Hnf [a2 [Hin2 [Hr2 Hu2]]]].
     pose proof (bind_outs_normal _ _ _ _ _ _ _ Hb Hin1 Hk Hin2) as Hin3.
-    destruct (dedup_in _ _ _ Hin3) as [a'' [Hin' Hw]].
-    exists a''; split; [assumption | eapply abs_rel_weak; eauto].
+    split; [exact Hnf|]. apply (via_dedup r0 o a2); auto.
+    eapply up_ok_trans; eauto. discriminate.
   - (* SeqX *)
-    destruct (ai a a0') as [o1|] eqn:Hai1; [|discriminate].
-    destruct (bind_outs o1 (ai b)) as [r0|] eqn:Hb; [|discriminate].
+    destruct (ai pre a a0') as [o1|] eqn:Hai1; [|discriminate].
+    destruct (bind_outs o1 (ai pre b)) as [r0|] eqn:Hb; [|discriminate].
     inversion Hai; subst.
-    destruct (IHexec Hnp a0' o1 Hrel Hai1) as [a1 [Hin1 Hr1]].
+    destruct (IHexec a0' o1 Hrel Hai1) as [Hnf [a1 [Hin1 [Hr1 Hu1]]]].
     pose proof (bind_outs_abrupt _ _ _ _ _ Hb Hin1 H0) as Hin3.
-    destruct (dedup_in _ _ _ Hin3) as [a'' [Hin' Hw]].
-    exists a''; split; [assumption | eapply abs_rel_weak; eauto].
-  - (* Return *) inversion Hai; subst; eexists; split; [left; reflexivity | assumption].
-  - (* Panic *) congruence.
-  - (* Break *) inversion Hai; subst; eexists; split; [left; reflexivity | assumption].
-  - (* Continue *) inversion Hai; subst; eexists; split; [left; reflexivity | assumption].
-  - (* LoopExit *)
-    destruct (ai a a0') as [o1|] eqn:Hai1; [|discriminate].
-    destruct (forallb (back_edge_ok a0') o1) eqn:Hbe; [|discriminate].
+    split; [exact Hnf|]. apply (via_dedup r0 o a1); auto.
+  - (* ThenN *)
+    destruct (ai pre a a0') as [o1|] eqn:Hai1; [|discriminate].
+    destruct (bind_then o1 (ai pre b)) as [r0|] eqn:Hb; [|discriminate].
     inversion Hai; subst.
-    destruct (dedup_in ONormal a0' ([(ONormal, a0')] ++ flat_map loop_exit o1)) as [a'' [Hin' Hw]];
-      [left; reflexivity|].
-    exists a''; split; [assumption | eapply abs_rel_weak; eauto].
-  - (* LoopIter *)
-    destruct (ai a a0') as [o1|] eqn:Hai1; [|discriminate].
+    destruct (IHexec1 a0' o1 Hrel Hai1) as [_ [a1 [Hin1 [Hr1 Hu1]]]].
+    destruct (bind_then_in _ _ _ _ _ Hb Hin1) as [x [Hx Hsub]]. cbn in Hx.
+    destruct (IHexec2 a1 x Hr1 Hx) as [Hnf [a2 [Hin2 [Hr2 Hu2]]]].
+    split; [exact Hnf|]. apply (via_dedup r0 o a2); auto.
+    eapply up_ok_trans; eauto. discriminate.
+  - (* ThenP *)
+    destruct (ai pre a a0') as [o1s|] eqn:Hai1; [|discriminate].
+    destruct (bind_then o1s (ai pre b)) as [r0|] eqn:Hb; [|discriminate].
+    inversion Hai; subst.
+    destruct (IHexec1 a0' o1s Hrel Hai1) as [_ [a1 [Hin1 [Hr1 Hu1]]]].
+    destruct (bind_then_in _ _ _ _ _ Hb Hin1) as [x [Hx Hsub]].
+    assert (Hk : exists y, ai pre b a1 = Some y /\ x = map (fun oa => (panic_join o1 (fst oa), snd oa)) y).
+    { destruct o1; try discriminate; cbn in Hx;
+        (destruct (ai pre b a1) as [y|]; [|discriminate]); inversion Hx; eauto. }
+    destruct Hk as [y [Hy ->]].
+    destruct (IHexec2 a1 y Hr1 Hy) as [Hnf [a2 [Hin2 [Hr2 Hu2]]]].
+    split; [destruct o1, o2; cbn; congruence|].
+    apply (via_dedup r0 (panic_join o1 o2) a2); auto.
+    + apply Hsub. apply in_map_iff. exists (o2, a2); auto.
+    + eapply up_ok_trans; eauto.
+      * intros ->. destruct o2; cbn; congruence.
+      * intros ->. destruct o1; cbn; congruence.
+  - (* ThenX *)
+    destruct (ai pre a a0') as [o1|] eqn:Hai1; [|discriminate].
+    destruct (bind_then o1 (ai pre b)) as [r0|] eqn:Hb; [|discriminate].
+    inversion Hai; subst.
+    destruct (IHexec a0' o1 Hrel Hai1) as [Hnf [a1 [Hin1 [Hr1 Hu1]]]].
+    destruct (bind_then_in _ _ _ _ _ Hb Hin1) as [x [Hx Hsub]].
+    assert (x = [(o, a1)]) by (destruct o; cbn in *; congruence). subst x.
+    split; [exact Hnf|]. apply (via_dedup r0 o a1); auto. apply Hsub; left; reflexivity.
+  - (* Return *) inversion Hai; subst. split; [discriminate|].
+    eexists; split; [left; reflexivity | split; [assumption | intro; auto]].
+  - (* Panic *) inversion Hai; subst. split; [discriminate|].
+    eexists; split; [left; reflexivity | split; [assumption | intro; auto]].
+  - (* Break *) inversion Hai; subst. split; [discriminate|].
+    eexists; split; [left; reflexivity | split; [assumption | intro; auto]].
+  - (* Continue *) inversion Hai; subst. split; [discriminate|].
+    eexists; split; [left; reflexivity | split; [assumption | intro; auto]].
+  - (* LoopExit *)
+    destruct (ai pre a a0') as [o1|] eqn:Hai1; [|discriminate].
     destruct (forallb (back_edge_ok a0') o1) eqn:Hbe; [|discriminate].
-    assert (Ho : o <> OPanic) by (destruct H0; subst; discriminate).
-    destruct (IHexec1 Ho a0' o1 Hrel Hai1) as [a1 [Hin1 Hr1]].
+    inversion Hai; subst. split; [discriminate|].
+    apply (via_dedup ([(ONormal, a0')] ++ flat_map loop_exit o1) ONormal a0'); [left; reflexivity | assumption | intro; auto].
+  - (* LoopIter *)
+    destruct (ai pre a a0') as [o1|] eqn:Hai1; [|discriminate].
+    destruct (forallb (back_edge_ok a0') o1) eqn:Hbe; [|discriminate].
+    destruct (IHexec1 a0' o1 Hrel Hai1) as [_ [a1 [Hin1 [Hr1 Hu1]]]].
     pose proof (proj1 (forallb_forall _ _) Hbe _ Hin1) as Hb1.
     unfold back_edge_ok in Hb1; cbn in Hb1.
     assert (Hq : aeqb a1 a0' = true) by (destruct H0; subst; assumption).
     apply (abs_rel_aeqb _ _ _ Hq) in Hr1.
-    apply (IHexec2 Hnp a0' r Hr1). cbn. rewrite Hai1, Hbe. exact Hai.
+    apply (IHexec2 a0' r Hr1). cbn. rewrite Hai1, Hbe. exact Hai.
   - (* LoopBreak *)
-    destruct (ai a a0') as [o1|] eqn:Hai1; [|discriminate].
+    destruct (ai pre a a0') as [o1|] eqn:Hai1; [|discriminate].
     destruct (forallb (back_edge_ok a0') o1) eqn:Hbe; [|discriminate].
-    inversion Hai; subst.
-    destruct (IHexec ltac:(discriminate) a0' o1 Hrel Hai1) as [a1 [Hin1 Hr1]].
-    assert (Hin : In (ONormal, a1) ((if inf then [] else [(ONormal, a0')]) ++ flat_map loop_exit o1)).
-    { apply in_or_app; right. apply in_flat_map. exists (OBreak, a1); split; [assumption | left; reflexivity]. }
-    destruct (dedup_in _ _ _ Hin) as [a'' [Hin' Hw]].
-    exists a''; split; [assumption | eapply abs_rel_weak; eauto].
+    inversion Hai; subst. split; [discriminate|].
+    destruct (IHexec a0' o1 Hrel Hai1) as [_ [a1 [Hin1 [Hr1 Hu1]]]].
+    apply (via_dedup _ ONormal a1); auto.
+    + apply in_or_app; right. apply in_flat_map. exists (OBreak, a1); split; [assumption | left; reflexivity].
+    + intro Hup. destruct (Hu1 Hup) as [|]; [auto | discriminate].
   - (* LoopAbrupt *)
-    destruct (ai a a0') as [o1|] eqn:Hai1; [|discriminate].
+    destruct (ai pre a a0') as [o1|] eqn:Hai1; [|discriminate].
     destruct (forallb (back_edge_ok a0') o1) eqn:Hbe; [|discriminate].
     inversion Hai; subst.
-    destruct H0 as [-> | ->]; [|congruence].
-    destruct (IHexec ltac:(discriminate) a0' o1 Hrel Hai1) as [a1 [Hin1 Hr1]].
-    assert (Hin : In (OReturn, a1) ((if inf then [] else [(ONormal, a0')]) ++ flat_map loop_exit o1)).
-    { apply in_or_app; right. apply in_flat_map. exists (OReturn, a1); split; [assumption | left; reflexivity]. }
-    destruct (dedup_in _ _ _ Hin) as [a'' [Hin' Hw]].
-    exists a''; split; [assumption | eapply abs_rel_weak; eauto].
+    destruct (IHexec a0' o1 Hrel Hai1) as [Hnf [a1 [Hin1 [Hr1 Hu1]]]].
+    split; [exact Hnf|].
+    apply (via_dedup _ o a1); auto.
+    apply in_or_app; right. apply in_flat_map. exists (o, a1); split; [assumption|].
+    destruct H0 as [-> | [-> | [-> | ->]]]; left; reflexivity.
   - (* Scope *)
-    destruct (ai a a0') as [o1|] eqn:Hai1; [|discriminate].
+    destruct (ai pre a a0') as [o1|] eqn:Hai1; [|discriminate].
     inversion Hai; subst.
-    assert (Ho : o <> OPanic) by (destruct o; cbn in Hnp; congruence).
-    destruct (IHexec Ho a0' o1 Hrel Hai1) as [a1 [Hin1 Hr1]].
-    exists a1; split; [|assumption].
-    apply in_map_iff. exists (o, a1); split; [reflexivity | assumption].
+    destruct (IHexec a0' o1 Hrel Hai1) as [Hnf [a1 [Hin1 [Hr1 Hu1]]]].
+    split; [destruct o; cbn; congruence|].
+    exists a1; split; [|split; [assumption|]].
+    + apply in_map_iff. exists (o, a1); split; [reflexivity | assumption].
+    + intro Hup. destruct (Hu1 Hup) as [? | ->]; auto.
   - (* Call *)
-    rewrite H in Hai. inversion Hai; subst r; clear Hai.
-    assert (Ho1 : o1 <> OPanic) by (destruct o1; cbn in Hnp; congruence).
-    assert (Ho2 : o2 <> OPanic) by (destruct o1, o2; cbn in Hnp; congruence).
+    rewrite H in Hai.
+    destruct (pre_met pre (a_slack a0') (a_held a0') (map_items (rename sg) (s_pre sm))) eqn:Hpm; [|discriminate].
+    inversion Hai; subst r; clear Hai.
     pose proof (Hall _ _ _ H) as Hok. unfold fn_ok in Hok.
-    destruct (ai body a0) as [o1s|] eqn:Hb; [|discriminate].
-    destruct (IHexec1 Ho1 a0 o1s abs_rel_0 Hb) as [a1 [Hin1 Hr1]].
+    apply andb_true_iff in Hok as [Hwf Hok].
+    destruct (ai (s_pre sm) body a0) as [o1s|] eqn:Hb; [|discriminate].
+    destruct (IHexec1 a0 o1s abs_rel_0 Hb) as [_ [a1 [Hin1 [Hr1 Hu1]]]].
     pose proof (proj1 (forallb_forall _ _) Hok _ Hin1) as Hx.
-    unfold exit_ok in Hx; cbn in Hx.
-    destruct Hr1 as [Hh1 [Hf1 Hd1]].
-    assert (Hx' : match ai (unwind (a_defers a1)) (mkA (a_held a1) (a_flags a1) [] (a_dirty a1)) with
-                  | Some o2s => forallb (after_defers_ok sm) o2s
+    unfold exit_ok in Hx; cbn [fst snd] in Hx.
+    destruct Hr1 as [Hh1 [Hf1 [Hd1 Hsl1]]].
+    assert (Hx' : match ai (s_pre sm) (unwind (a_defers a1)) (mkA (a_held a1) (a_flags a1) [] (a_dirty a1) (a_up a1) (a_slack a1)) with
+                  | Some o2s => forallb (after_defers_ok sm (a_defers a1) o1) o2s
                   | None => false end = true) by (destruct o1; congruence).
     clear Hx.
-    destruct (ai (unwind (a_defers a1)) _) as [o2s|] eqn:Hu; [|discriminate].
+    destruct (ai (s_pre sm) (unwind (a_defers a1)) _) as [o2s|] eqn:Hu; [|discriminate].
     rewrite Hd1 in IHexec2.
-    destruct (IHexec2 Ho2 (mkA (a_held a1) (a_flags a1) [] (a_dirty a1)) o2s) as [a2 [Hin2 Hr2]];
-      [repeat split; cbn; auto | exact Hu |].
+    destruct (IHexec2 (mkA (a_held a1) (a_flags a1) [] (a_dirty a1) (a_up a1) (a_slack a1)) o2s) as [Hnf2 [a2 [Hin2 [Hr2 Hu2]]]];
+      [split; [|split; [|split]]; cbn; auto | exact Hu |].
     pose proof (proj1 (forallb_forall _ _) Hx' _ Hin2) as Hy.
-    unfold after_defers_ok in Hy; cbn in Hy.
-    assert (Hn2 : o2 = ONormal) by (destruct o2; congruence). subst o2.
-    destruct (final_ok_meets _ _ _ Hy Hr2) as [ex2 [Hs2 He2]].
-    destruct Hrel as [[ex [Hs He]] [Hf Hd]].
-    exists (mkA (map_items (rename sg) (s_delta sm) ++ a_held a0') (a_flags a0') (a_defers a0')
-                (map (rename_pile sg) (s_dirty sm) ++ a_dirty a0')).
-    split.
-    { replace (call_outcome o1 ONormal) with ONormal by (destruct o1; cbn; congruence).
-      left; reflexivity. }
-    repeat split; cbn; auto.
-    exists (map_items (rename sg) ex2 ++ ex); split.
-    + apply supp_in_app.
-      * eapply supp_in_mono; [|apply supp_in_rename, Hs2]. intros; apply in_or_app; auto.
+    destruct Hrel as [[ex [ex2 [Hs [Hup [Hnn He]]]]] [Hf [Hd Hsl]]].
+    destruct (call_case _ _ _ _ _ Hy H2 H3 H4) as [(Hco & _ & -> & Hfin) | (Hco & _ & Hpe)]; rewrite Hco.
+    + (* the callee returns *)
+      split; [discriminate|].
+      destruct (final_ok_meets _ _ _ Hfin Hr2) as [[exc [Hsc Hec]] _].
+      eexists; split; [left; reflexivity|]. split; [|intro; auto].
+      split; [|split; [|split]]; cbn; auto.
+      exists (map_items (rename sg) exc ++ ex), ex2. split; [|split; [|split]]; auto.
+      * apply supp_in_app.
+        -- eapply supp_in_mono; [|apply supp_in_rename, Hsc]. intros; apply in_or_app; auto.
+        -- eapply supp_in_mono; [|exact Hs]. intros; apply in_or_app; auto.
+      * intro j. rewrite !cnt_app.
+        rewrite (map_items_equiv (rename sg) _ _ Hec j), map_items_app, cnt_app, (He j), !cnt_app. lia.
+    + (* the callee panics *)
+      split; [discriminate|].
+      unfold panic_exit_ok in Hpe. apply andb_true_iff in Hpe as [Hpe _].
+      apply andb_true_iff in Hpe as [Hpan Hpl]. rewrite Hpan.
+      eexists; split; [right; left; reflexivity|]. split; [|intro; right; reflexivity].
+      split; [|split; [|split]]; cbn; auto;
+        [| apply sm_equiv_app; [apply sm_equiv_refl | exact Hsl]].
+      exists ex, ((map_items (rename sg) (held fr2) ++ map_items (rename sg) (s_plow sm)) ++ ex2). split; [|split; [|split]].
       * eapply supp_in_mono; [|exact Hs]. intros; apply in_or_app; auto.
-    + intro j. rewrite !cnt_app.
-      rewrite (map_items_equiv (rename sg) _ _ He2 j), map_items_app, cnt_app, (He j), cnt_app. lia.
+      * discriminate.
+      * apply nonneg_checked_app; [|exact Hnn].
+        intros j Hj. rewrite cnt_app, !cnt_map_items, <- cntP_app.
+        apply cntP_nonneg. intros i Hi.
+        destruct (item_eqb_spec j (rename sg i)) as [->|]; [|discriminate].
+        rewrite checked_rename in Hj. rewrite cnt_app. apply (plow_sound sm a2 fr2 Hpl Hr2 i Hj).
+      * intro j. rewrite !cnt_app, cnt_neg, (He j), !cnt_app. lia.
+  - (* CallFault *)
+    exfalso.
+    pose proof (Hall _ _ _ H) as Hok. unfold fn_ok in Hok.
+    apply andb_true_iff in Hok as [Hwf Hok].
+    destruct (ai (s_pre sm) body a0) as [o1s|] eqn:Hb; [|discriminate].
+    destruct (IHexec a0 o1s abs_rel_0 Hb) as [Hnf _]. congruence.
+  - (* CallPre *)
+    exfalso. rewrite H in Hai.
+    destruct (pre_met pre (a_slack a0') (a_held a0') (map_items (rename sg) (s_pre sm))) eqn:Hpm; [|discriminate].
+    pose proof (Hall _ _ _ H) as Hok. unfold fn_ok in Hok.
+    apply andb_true_iff in Hok as [Hwf _].
+    rewrite (pre_met_mono _ _ _ _ Hrel (fun e => sm_wf_pre sm sg e Hwf) Hpm) in H0. discriminate.
+Qed.
+
+(* A complete run of a checked function, abstractly. *)
+Lemma fn_run_sound f sm o1 fr1 o2 fr2 :
+  fn_run f sm o1 fr1 o2 fr2 ->
+  o2 <> OFault /\
+  exists a1 a2,
+    abs_rel a1 fr1 /\ up_ok a0 o1 a1 /\ abs_rel a2 fr2 /\
+    up_ok a1 o2 a2 /\
+    after_defers_ok sm (defers fr1) o1 (o2, a2) = true.
+Proof.
+  intros (body & Hf & Hex1 & Hb1 & Hc1 & Hf1 & Hex2).
+  pose proof (Hall _ _ _ Hf) as Hok. unfold fn_ok in Hok.
+  apply andb_true_iff in Hok as [_ Hok].
+  destruct (ai (s_pre sm) body a0) as [o1s|] eqn:Hab; [|discriminate].
+  destruct (exec_sound _ _ _ _ _ Hex1 a0 o1s abs_rel_0 Hab) as [_ [a1 [Hin1 [Hr1 Hu1]]]].
+  pose proof (proj1 (forallb_forall _ _) Hok _ Hin1) as Hx.
+  unfold exit_ok in Hx; cbn [fst snd] in Hx.
+  assert (Hx' : match ai (s_pre sm) (unwind (a_defers a1)) (mkA (a_held a1) (a_flags a1) [] (a_dirty a1) (a_up a1) (a_slack a1)) with
+                | Some o2s => forallb (after_defers_ok sm (a_defers a1) o1) o2s
+                | None => false end = true) by (destruct o1; congruence).
+  clear Hx.
+  destruct (ai (s_pre sm) (unwind (a_defers a1)) _) as [o2s|] eqn:Hu; [|discriminate].
+  pose proof Hr1 as [Hh1 [Hfl1 [Hd1 Hsl1]]].
+  rewrite Hd1 in Hex2.
+  destruct (exec_sound _ _ _ _ _ Hex2 (mkA (a_held a1) (a_flags a1) [] (a_dirty a1) (a_up a1) (a_slack a1)) o2s)
+    as [Hnf2 [a2 [Hin2 [Hr2 Hu2]]]]; [repeat split; cbn; auto | exact Hu |].
+  split; [exact Hnf2|]. exists a1, a2.
+  split; [exact Hr1|]. split; [exact Hu1|]. split; [exact Hr2|]. split; [exact Hu2|].
+  rewrite Hd1. exact (proj1 (forallb_forall _ _) Hx' _ Hin2).
 Qed.
 
 End Sound.
@@ -916,41 +1391,84 @@ Theorem balanced_sound_all :
   forall f h, fn_returns f h ->
   exists body sm, assoc f prog = Some (body, sm) /\ meets sm h.
 Proof.
-  intros Hb f h (body & sm & o1 & fr1 & fr2 & Hf & Hex1 & Ho1 & Hex2 & ->).
+  intros Hb f h (sm & o1 & fr1 & fr2 & Hrun & Ho1 & ->).
   pose proof (all_ok_of_bool Hb) as Hall.
-  exists body, sm; split; [assumption|].
-  pose proof (Hall _ _ _ Hf) as Hok. unfold fn_ok in Hok.
-  destruct (ai body a0) as [o1s|] eqn:Hab; [|discriminate].
-  assert (Hn1 : o1 <> OPanic) by (destruct Ho1; subst; discriminate).
-  destruct (exec_sound Hall _ _ _ _ Hex1 Hn1 a0 o1s abs_rel_0 Hab) as [a1 [Hin1 [Hh1 [Hf1 Hd1]]]].
-  pose proof (proj1 (forallb_forall _ _) Hok _ Hin1) as Hx.
-  unfold exit_ok in Hx; cbn in Hx.
-  assert (Hx' : match ai (unwind (a_defers a1)) (mkA (a_held a1) (a_flags a1) [] (a_dirty a1)) with
-                | Some o2s => forallb (after_defers_ok sm) o2s
-                | None => false end = true) by (destruct Ho1; subst; exact Hx).
-  destruct (ai (unwind (a_defers a1)) _) as [o2s|] eqn:Hu; [|discriminate].
-  rewrite Hd1 in Hex2.
-  destruct (exec_sound Hall _ _ _ _ Hex2 ltac:(discriminate)
-              (mkA (a_held a1) (a_flags a1) [] (a_dirty a1)) o2s) as [a2 [Hin2 Hr2]];
-    [repeat split; cbn; auto | exact Hu |].
-  pose proof (proj1 (forallb_forall _ _) Hx' _ Hin2) as Hy.
-  unfold after_defers_ok in Hy; cbn in Hy.
-  eapply final_ok_meets; eauto.
+  destruct (fn_run_sound Hall _ _ _ _ _ _ Hrun) as [_ (a1 & a2 & _ & _ & Hr2 & _ & Hy)].
+  destruct Hrun as (body & Hf & _). exists body, sm; split; [assumption|].
+  unfold after_defers_ok in Hy; cbn [fst snd] in Hy.
+  assert (Hp : is_panic o1 = false) by (destruct Ho1; subst; reflexivity). rewrite Hp in Hy.
+  exact (proj1 (final_ok_meets _ _ _ Hy Hr2)).
 Qed.
 
-(* The case the property is about: a function without a declared summary
-   holds, when it returns, exactly the locks it held when it was called. *)
+(* The case the property is about: a function whose summary declares no net
+   effect holds, when it returns, exactly the locks it held when it was
+   called. *)
 Corollary balanced_sound :
   forallb balanced (map fst prog) = true ->
-  forall f body, assoc f prog = Some (body, neutral) ->
+  forall f body sm, assoc f prog = Some (body, sm) -> s_delta sm = [] -> s_dirty sm = [] ->
   forall h, fn_returns f h -> forall i, cnt h i = 0.
 Proof.
-  intros Hb f body Hf h Hr i.
-  destruct (balanced_sound_all Hb f h Hr) as (body' & sm & Hf' & ex & Hs & He).
-  rewrite Hf in Hf'; inversion Hf'; subst.
-  rewrite (He i); cbn.
+  intros Hb f body sm Hf Hd Hp h Hr i.
+  destruct (balanced_sound_all Hb f h Hr) as (body' & sm' & Hf' & ex & Hs & He).
+  rewrite Hf in Hf'; inversion Hf'; subst sm' body'.
+  rewrite (He i), Hd; cbn. rewrite Hp in Hs.
   destruct ex as [|e ex]; [reflexivity|].
   specialize (Hs e (or_introl eq_refl)); discriminate.
+Qed.
+
+(* No run of any function -- returning or panicking, in its body, in its
+   deferred statements or in anything it calls -- releases a mutex that is
+   not held (relative to the entry assumption) or calls a function whose
+   entry assumption is not met. *)
+Theorem balanced_no_fault :
+  forallb balanced (map fst prog) = true -> forall f, ~ fn_faults f.
+Proof.
+  intros Hb f (body & sm & Hf & [[fr1 Hex] | (o1 & fr1 & fr2 & Hrun)]).
+  - pose proof (all_ok_of_bool Hb) as Hall.
+    pose proof (Hall _ _ _ Hf) as Hok. unfold fn_ok in Hok.
+    apply andb_true_iff in Hok as [_ Hok].
+    destruct (ai (s_pre sm) body a0) as [o1s|] eqn:Hab; [|discriminate].
+    destruct (exec_sound Hall _ _ _ _ _ Hex a0 o1s abs_rel_0 Hab) as [Hnf _]. congruence.
+  - destruct (fn_run_sound (all_ok_of_bool Hb) _ _ _ _ _ _ Hrun) as [Hnf _]. congruence.
+Qed.
+
+(* When a function panics by itself, every lock covered by a deferred
+   statement pending at that moment is, after the deferred statements have
+   run, exactly at the function's declared net effect (zero for a function
+   without a summary).  Only locks no pending defer covers are exempt. *)
+Theorem balanced_panic_covered :
+  forallb balanced (map fst prog) = true ->
+  forall f sm ds h, fn_panics_own f sm ds h ->
+  forall i, covered ds i = true -> in_piles (s_dirty sm) i = false -> cnt h i = cnt (s_delta sm) i.
+Proof.
+  intros Hb f sm ds h (o1 & fr1 & o2 & fr2 & Hrun & Hcase & -> & ->) i Hcov Hnp.
+  destruct (fn_run_sound (all_ok_of_bool Hb) _ _ _ _ _ _ Hrun)
+    as [_ (a1 & a2 & Hr1 & Hu1 & Hr2 & Hu2 & Hy)].
+  assert (Hup1 : a_up a1 = false).
+  { destruct (a_up a1) eqn:E; [|reflexivity]. destruct (Hu1 E) as [Hc | Hc]; [discriminate|].
+    destruct Hcase as [[-> _] | [[-> | ->] _]]; discriminate. }
+  assert (Hup2 : a_up a2 = false).
+  { destruct (a_up a2) eqn:E; [|reflexivity]. destruct (Hu2 E) as [Hc | Hc]; [cbn in Hc; congruence|].
+    destruct Hcase as [[_ [-> | ->]] | [_ ->]]; discriminate. }
+  assert (Hpe : panic_exit_ok sm (defers fr1) a2 = true).
+  { unfold after_defers_ok in Hy; cbn [fst snd] in Hy.
+    destruct Hcase as [[-> [-> | ->]] | [[-> | ->] ->]]; exact Hy. }
+  unfold panic_exit_ok in Hpe. rewrite Hup2 in Hpe. cbn in Hpe.
+  apply andb_true_iff in Hpe as [_ Hco].
+  exact (covered_sound _ _ _ _ Hco Hr2 Hup2 i Hcov Hnp).
+Qed.
+
+(* A function whose summary says it does not panic does not (explicit panic
+   statements, in itself or in what it calls). *)
+Theorem balanced_no_panic :
+  forallb balanced (map fst prog) = true ->
+  forall f sm o1 fr1 o2 fr2, fn_run f sm o1 fr1 o2 fr2 -> s_panics sm = false ->
+  is_panic o1 = false /\ is_panic o2 = false.
+Proof.
+  intros Hb f sm o1 fr1 o2 fr2 Hrun Hnp.
+  destruct (fn_run_sound (all_ok_of_bool Hb) _ _ _ _ _ _ Hrun) as [_ (a1 & a2 & _ & _ & _ & _ & Hy)].
+  unfold after_defers_ok, panic_exit_ok in Hy; cbn [fst snd] in Hy. rewrite Hnp in Hy.
+  destruct o1, o2; cbn in *; auto; discriminate.
 Qed.
 
 End Semantics.
